@@ -5,6 +5,7 @@ Import ListNotations.
 Local Open Scope Z_scope.
 
 Definition in_cons (s : state) : host -> Prop := fun x => In x (consumed s).
+Definition is_consult_ev (e : event) : bool := match e with Consult _ _ _ _ _ _ _ _ => true | _ => false end.
 
 (* a transition that only moves hosts from the plan to `consumed`, announces plan sends in order, and mentions only
    consumed hosts afterwards if it did before *)
@@ -289,12 +290,21 @@ Proof.
   intros P C Hs. split; [apply plan_move_id; auto|]. intros _ A. unfold in_cons. rewrite C, Hs. exact A.
 Qed.
 
+Lemma on_timeout_cover s : plan (on_timeout s) = plan s /\ consumed (on_timeout s) = consumed s /\
+  (forall e, hosts_of (on_timeout s) e = hosts_of s e).
+Proof.
+  destruct (on_timeout_same s) as [[_ F]|[_ E]]; [|rewrite E; auto].
+  destruct F. repeat split; auto. intros e. unfold hosts_of. rewrite sbo_att, sbo_queue, sbo_errors. reflexivity.
+Qed.
+
 Lemma spec_fire_ok s s' ev : spec_fire s = (s', ev) -> ok_trans s s' ev.
 Proof.
   unfold spec_fire. intros H.
   destruct (negb (spec_armed s)); [inversion H; subst; apply ok_same; reflexivity|].
   destruct (completed (set_spec s false (spec_left s))); [inversion H; subst; apply ok_same; reflexivity|].
   destruct (attempts (set_spec s false (spec_left s))) eqn:Att; [inversion H; subst; apply ok_same; reflexivity|].
+  destruct (elapsed (set_spec s false (spec_left s))).
+  { inversion H; subst. destruct (on_timeout_cover (set_spec s false (spec_left s))) as (P & C & Hh). apply ok_same; assumption. }
   destruct (send_request (set_spec s false (spec_left s)) false) as [s1 ev1] eqn:W. inversion H; subst.
   apply send_request_ok in W.
   assert (O : ok_trans s s1 ev).
@@ -303,6 +313,53 @@ Proof.
   eapply ok_trans_post; [exact O|reflexivity|reflexivity|reflexivity].
 Qed.
 End WithK.
+
+(* ------------------------------------------------------------------ the executor-first schedule of a retry *)
+Definition retry_dec (reuse : bool) : decision := if reuse then DRetry else DNextHost.
+
+Lemma resp_current_cases c s0 h r s' ev : resp_current c s0 h r = (s', ev) ->
+  set_result c s0 h r = (s', ev) \/
+  exists k tag dcl reuse s2 ev2, r = RRetryable k tag /\ inline_retry c = true /\
+    pol c (nconsult s0) k tag (retries s0) (if request_error_kind k then msg_cl s0 else None) = (retry_dec reuse, dcl) /\
+    fin_exc s0 = None /\ session_shut s0 = false /\
+    run_task c (bump_counters (tick_consult s0) dcl) (TRetry reuse h) = (s2, ev2) /\
+    s' = set_err s2 h (EResp k tag) /\
+    ev = Consult (nconsult s0) h k tag (retries s0) (if request_error_kind k then msg_cl s0 else None) (retry_dec reuse) dcl
+         :: ev2 ++ [ErrSet h (EResp k tag)].
+Proof.
+  intros H. destruct r; cbn [resp_current] in H; auto.
+  destruct (inline_retry c) eqn:I; auto. unfold retry_inline in H.
+  destruct (pol c (nconsult s0) k tag (retries s0) (if request_error_kind k then msg_cl s0 else None)) as [d dcl] eqn:P.
+  destruct d; try (left; exact H).
+  - destruct (fin_exc s0) eqn:F; cbn [is_some orb] in H; [left; exact H|].
+    destruct (session_shut s0) eqn:Sh; [left; exact H|].
+    destruct (run_task c (bump_counters (tick_consult s0) dcl) (TRetry true h)) as [s2 ev2] eqn:R.
+    inversion H; subst. right. exists k, tag, dcl, true, s2, ev2. repeat split; auto.
+  - destruct (fin_exc s0) eqn:F; cbn [is_some orb] in H; [left; exact H|].
+    destruct (session_shut s0) eqn:Sh; [left; exact H|].
+    destruct (run_task c (bump_counters (tick_consult s0) dcl) (TRetry false h)) as [s2 ev2] eqn:R.
+    inversion H; subst. right. exists k, tag, dcl, false, s2, ev2. repeat split; auto.
+Qed.
+
+(* prefixing a consultation and appending the late _errors write keeps an ok transition ok *)
+Section Wrap.
+Variable K : Prop.
+Lemma ok_trans_wrap s s2 ev2 h e (cons : event) : is_consult_ev cons = true ->
+  ok_trans K s s2 ev2 -> (K -> in_cons s h) -> ok_trans K s (set_err s2 h e) (cons :: ev2 ++ [ErrSet h e]).
+Proof.
+  intros Hc [[ex C P S] Hx] Hh. split.
+  - apply (Build_plan_move _ _ _ ex); [exact C|exact P|].
+    change (cons :: ev2 ++ [ErrSet h e]) with ([cons] ++ ev2 ++ [ErrSet h e]). rewrite !plan_sends_app.
+    destruct cons; try discriminate. cbn. rewrite app_nil_r. exact S.
+  - intros HK A x Hy. apply hosts_of_in in Hy. cbn [attempts queue errors set_err] in Hy. rewrite keys_upd in Hy.
+    assert (Sh : sent_hosts (cons :: ev2 ++ [ErrSet h e]) = sent_hosts ev2).
+    { change (cons :: ev2 ++ [ErrSet h e]) with ([cons] ++ ev2 ++ [ErrSet h e]). rewrite !sent_hosts_app.
+      destruct cons; try discriminate. cbn. apply app_nil_r. }
+    rewrite Sh in Hy. unfold in_cons. cbn [consumed set_err].
+    destruct Hy as [Hy|[Hy|[[->|Hy]|Hy]]]; try (apply (Hx HK A), hosts_of_in; tauto).
+    rewrite C. apply in_app_iff. left. apply Hh, HK.
+Qed.
+End Wrap.
 
 (* ------------------------------------------------------------------ every step is an ok transition *)
 Definition all_consumed (s : state) : Prop := all_in (hosts_of s []) (in_cons s).
@@ -321,7 +378,11 @@ Proof.
     destruct (a_prep a).
     + inversion H; subst. apply (pre_ok _ s _ (a_host a)); auto. apply pre_submit; [reflexivity|exact P0].
     + destruct (Nat.eqb (a_page a) (page_no s)); [|inversion H; subst; apply (pre_ok _ s _ (a_host a)); auto].
-      destruct (set_result_pre _ _ _ _ _ _ _ P0 H) as (P1 & E1 & E2). apply (pre_ok _ s _ (a_host a)); auto.
+      destruct (resp_current_cases _ _ _ _ _ _ H) as [H'|(k & tag & dcl & reuse & s2 & ev2 & -> & I & Pl & F & Sh & R & -> & ->)].
+      * destruct (set_result_pre _ _ _ _ _ _ _ P0 H') as (P1 & E1 & E2). apply (pre_ok _ s _ (a_host a)); auto.
+      * apply ok_trans_wrap; [reflexivity| |exact Hh].
+        eapply (run_task_ok (all_consumed s) c s _ (TRetry reuse (a_host a))); [|exact Hh|exact R].
+        apply pre_bump_counters, pre_tick. exact P0.
   - destruct (nth_error (queue s) k) as [t|] eqn:N; [|inversion H; subst; apply ok_same; reflexivity].
     eapply run_task_ok; [apply pre_set_queue_deq| |exact H].
     intros A. apply A, hosts_nil_split. right; left. eapply nth_error_task_in; eauto.
